@@ -2,17 +2,17 @@
 # usage: confirm_seeded.sh <worktree> <mutdir> <test-crate> <test-name> [arc]
 # Confirms in a scratch worktree: demo passes without the patch; with the patch the code
 # compiles, the existing suite passes and the demo fails. Leaves the worktree clean.
-wt="$1"; mut="$2"; crate="$3"; tname="$4"; arc="$5"
+wt="$1"; mut="$2"; crate="$3"; tname="$4"; arc="$5"; case "$crate" in koto) pkg=koto;; *) pkg=koto_$crate;; esac
 cd "$wt" || exit 2
 git checkout -q -- . ; git clean -fdq crates libs
 log="$mut/confirm.log"; : > "$log"
 cp "$mut"/demo/*.rs "crates/$crate/tests/" 2>/dev/null
 feat=""; [ "$arc" = "arc" ] && feat="--no-default-features --features arc"
 echo "## demo WITHOUT patch" >> "$log"
-CARGO_NET_OFFLINE=true RUST_BACKTRACE=0 cargo test -p "$crate" --test "$tname" --offline $feat >> "$log" 2>&1; d0=$?
+CARGO_NET_OFFLINE=true RUST_BACKTRACE=0 cargo test -p "$pkg" --test "$tname" --offline $feat >> "$log" 2>&1; d0=$?
 git apply "$mut/patch.diff" || { echo "APPLY FAILED" >> "$log"; exit 2; }
 echo "## demo WITH patch" >> "$log"
-CARGO_NET_OFFLINE=true RUST_BACKTRACE=0 cargo test -p "$crate" --test "$tname" --offline $feat >> "$log" 2>&1; d1=$?
+CARGO_NET_OFFLINE=true RUST_BACKTRACE=0 cargo test -p "$pkg" --test "$tname" --offline $feat >> "$log" 2>&1; d1=$?
 rm -f crates/$crate/tests/seeded_*.rs
 echo "## existing suite WITH patch" >> "$log"
 CARGO_NET_OFFLINE=true cargo test --workspace --no-fail-fast --offline 2>&1 | grep -E "^test result|FAILED|failed|^error" >> "$log"; 
